@@ -29,6 +29,16 @@ def spell_mem(rng, mb):
     return '%dM' % mb
 
 
+def spell_cap(rng, mb, spell=None):
+    """A spelling of a *capacity* of `mb` megabytes.  A capacity written in K
+    that is not a whole number of megabytes counts as the whole megabytes it
+    contains (the model's resolution is 1M; a capacity must never be
+    overstated)."""
+    if mb > 0 and rng.random() < 0.12:
+        return '%dK' % (mb * 1024 + rng.choice([1, 511, 512, 1023, rng.randrange(1, 1024)]))
+    return (spell or spell_mem)(rng, mb)
+
+
 def spell_cpu(rng, cpu):
     c = rng.randrange(4)
     if c == 0:
@@ -251,9 +261,9 @@ class CellDriver:
     def op_add_server(self, spec=None):
         spec = spec or self.gen_server_spec()
         rng = self.rng
-        data = {'memory': spell_mem(rng, spec['cap'][0]),
+        data = {'memory': spell_cap(rng, spec['cap'][0]),
                 'cpu': spell_cpu(rng, spec['cap'][1]),
-                'disk': spell_mem(rng, spec['cap'][2])}
+                'disk': spell_cap(rng, spec['cap'][2])}
         cap = self.loader.resources(data)
         self.mon.count('spelling_server')
         srv = self.sch.Server(spec['name'], cap, valid_until=spec['valid_until'],
@@ -278,6 +288,16 @@ class CellDriver:
         srv.parent.remove_node(srv)
         del self.H.servers[name]
         self.ops.append(('del_server', name))
+
+    def op_detach_server(self, name):
+        """The server's node is taken out of the tree while instances are still
+        on it (Cell._fix_invalid_placements exists for exactly this: "app is
+        placed on non-existent server")."""
+        srv = self._server_obj(name)
+        srv.parent.remove_node(srv)
+        del self.H.servers[name]
+        self.mon.count('detach_populated' if srv.apps else 'detach_empty')
+        self.ops.append(('detach_server', name))
 
     def op_replace_server(self, name, spec):
         """loader.reload_server with a modified record: remove, load as new,
@@ -444,7 +464,10 @@ class CellDriver:
         elif kind == 'add_server' and len(servers) < self.pf.max_servers + 3:
             self.op_add_server()
         elif kind == 'del_server' and len(servers) > 1:
-            self.op_del_server(rng.choice(servers))
+            if rng.random() < 0.3:
+                self.op_detach_server(rng.choice(servers))
+            else:
+                self.op_del_server(rng.choice(servers))
         elif kind == 'replace_server' and servers:
             name = rng.choice(servers)
             old = H.servers[name]
@@ -534,7 +557,7 @@ class CellDriver:
             return max(0.1, d - now + eps)
         return rng.choice([0.5, 1, 3, 10, 40])
 
-    def renew_candidates(self):
+    def renew_candidates(self, with_leaseless=False):
         """Renewal is requested like test_renew does (app.renew = True right
         before a cycle), and only on instances that will still be placed when
         the renewal branch runs (DESIGN 1.6: states production can reach)."""
@@ -548,7 +571,7 @@ class CellDriver:
             if app.identity_group_ref is not None and (
                     app.identity is None or app.identity >= app.identity_group_ref.count):
                 continue
-            if not app.lease:
+            if not app.lease and not with_leaseless:
                 continue
             out.append(name)
         return sorted(out)
